@@ -121,6 +121,16 @@ Inductive op :=
 | OTimeout                                (* callEstablishmentTimeout seconds pass *)
 | OSetW (s : sid) (target : uid) (b : bool). (* {set sub mode}: own want (target 0/self) or the other's given *)
 
+Arguments OAttach s%N.
+Arguments OAttachMe s%N.
+Arguments OLeave s%N.
+Arguments OUnsub s%N.
+Arguments ODisc s%N.
+Arguments OInvite s%N content%N w%N.
+Arguments OPub s%N content%N.
+Arguments OEvent s%N e seq%Z payload%N.
+Arguments OSetW s%N target%N b.
+
 (* ------------------------------------------------------------------ *)
 (* broadcastToSessions of a {data}: every attached session (both participants are readers) *)
 Definition bcast_data (cfg : config) (st : state) (m : msg) : list out :=
